@@ -1405,6 +1405,108 @@ pub fn record(suite: &str, n: usize, seed: u64, arg: &str, out: &mut dyn Write) 
                 m.decode(len, &b2, 1);
             }
         }
+        // C12: one operation stream of calls that BOTH builds offer, chosen by name so that the two
+        // builds execute exactly the same calls with the same arguments
+        "equiv" => {
+            let mut m = Machine::new(out);
+            let bin_names = ["&E+&E", "E+&E", "&E+E", "E+E", "E+=&E", "E+=E", "&E-&E", "E-&E", "&E-E", "E-E", "E-=&E", "E-=E"];
+            let mul_names = ["E*=&Fr", "E*=Fr", "&E*&Fr", "&Fr*&E", "E*&Fr", "&E*Fr", "E*Fr", "Fr*&E", "&Fr*E", "Fr*E"];
+            let enc_names = ["vartime_compress", "Encoding::from(&E)", "Encoding::from(E)", "<[u8;32]>::from(E)", "<[u8;32]>::from(Encoding)"];
+            let dec_names = ["vartime_decompress", "TryFrom<[u8;32]> E", "TryFrom<Encoding> E", "TryFrom<&Encoding> E", "Encoding::from([u8;32])",
+                             "TryFrom<&[u8]> E", "TryFrom<&[u8]> Encoding", "TryInto<Element> for &[u8]"];
+            let bin_ix: Vec<usize> = bin_names.iter().map(|n| BIN_FORMS.iter().position(|f| f.1 == *n).unwrap()).collect();
+            let mul_ix: Vec<usize> = mul_names.iter().map(|n| MUL_FORMS.iter().position(|f| f.0 == *n).unwrap()).collect();
+            let enc_ix: Vec<usize> = enc_names.iter().map(|n| ENC_FORMS.iter().position(|f| f.0 == *n).unwrap()).collect();
+            let dec_ix: Vec<usize> = dec_names
+                .iter()
+                .map(|n| {
+                    DEC32_FORMS.iter().position(|f| f.0 == *n).unwrap_or_else(|| DEC32_FORMS.len() + DECSLICE_FORMS.iter().position(|f| f.0 == *n).unwrap())
+                })
+                .collect();
+            let neg_ix = NEG_FORMS.iter().position(|f| f.0 == "-E").unwrap();
+            let eq_ix: Vec<usize> = ["E==E", "!(E!=E)"].iter().map(|n| EQ_FORMS.iter().position(|f| f.0 == *n).unwrap()).collect();
+            let id_ix: Vec<usize> = ["is_identity", "==IDENTITY"].iter().map(|n| ID_FORMS.iter().position(|f| f.0 == *n).unwrap()).collect();
+            let const_ix: Vec<usize> = ["IDENTITY", "GENERATOR"].iter().map(|n| CONST_FORMS.iter().position(|f| f.0 == *n).unwrap()).collect();
+            let len: usize = arg.parse().unwrap_or(40);
+            let mut ctr = 0usize;
+            for _ in 0..n {
+                m.reset();
+                m.konst(const_ix[1], 1);
+                let x = rand_fq(&mut r);
+                m.ell(&x, 2);
+                for _ in 0..len {
+                    ctr += 1;
+                    let a = below(&mut r, NREG);
+                    let b = if below(&mut r, 6) == 0 { a } else { below(&mut r, NREG) };
+                    let dst = below(&mut r, NREG);
+                    let w = below(&mut r, 100);
+                    let mut produced = true;
+                    match w {
+                        0..=29 => m.bin(bin_ix[ctr % bin_ix.len()], a, b, dst),
+                        30..=34 => m.neg(neg_ix, a, dst),
+                        35..=39 => m.dbl(0, a, dst),
+                        40..=47 => {
+                            let k = rand_scalar(&mut r);
+                            m.mul(mul_ix[ctr % mul_ix.len()], &k, a, dst)
+                        }
+                        48..=57 => {
+                            let x = rand_fq(&mut r);
+                            m.ell(&x, dst)
+                        }
+                        58..=60 => {
+                            let x = rand_fq(&mut r);
+                            let y = rand_fq(&mut r);
+                            m.h2c(&x, &y, dst)
+                        }
+                        61..=63 => m.konst(const_ix[ctr % 2], dst),
+                        64..=73 => {
+                            // decode: an encoding of a register, a mutation of it, or a random string
+                            let mut bytes = m.regs[a].vartime_compress().0.to_vec();
+                            match below(&mut r, 4) {
+                                0 => {}
+                                1 => {
+                                    let bit = below(&mut r, 256);
+                                    bytes[bit / 8] ^= 1 << (bit % 8);
+                                }
+                                2 => {
+                                    bytes = rbytes(&mut r, 32);
+                                    bytes[31] &= 0x1f;
+                                    bytes[0] &= 0xfe;
+                                }
+                                _ => {
+                                    let l = below(&mut r, 70);
+                                    bytes = rbytes(&mut r, l);
+                                }
+                            }
+                            let mut j = dec_ix[ctr % dec_ix.len()];
+                            if bytes.len() != 32 {
+                                j = ctr % DECSLICE_FORMS.len(); // slice entry points only (same list in both builds)
+                            }
+                            m.decode(j, &bytes, dst);
+                        }
+                        74..=83 => {
+                            m.enc(enc_ix[ctr % enc_ix.len()], a);
+                            produced = false;
+                        }
+                        84..=85 => {
+                            m.encf(0, a);
+                            produced = false;
+                        }
+                        86..=93 => {
+                            m.eq(eq_ix[ctr % 2], a, b);
+                            produced = false;
+                        }
+                        _ => {
+                            m.isid(id_ix[ctr % 2], a);
+                            produced = false;
+                        }
+                    }
+                    if produced {
+                        m.enc(enc_ix[0], dst);
+                    }
+                }
+            }
+        }
         // C06: constructors without a functional specification: whatever they hand out must be valid
         "ctor" => {
             let mut m = Machine::new(out);
